@@ -10,14 +10,14 @@ values and/or decrypt old values before checking them.
 Copyright 2018, 2019, 2020 William W. Kimball, Jr. MBA MSIS
 """
 import sys
-import tempfile
 import argparse
 import secrets
 import string
 import json
 from os import remove, access, R_OK
 from os.path import isfile, exists
-from shutil import copy2, copyfileobj
+from io import StringIO
+from shutil import copy2
 from pathlib import Path
 
 from yamlpath import __version__ as YAMLPATH_VERSION
@@ -307,51 +307,35 @@ def validateargs(args, log):
     if has_errors:
         sys.exit(1)
 
-def save_to_json_file(args, log, yaml_data):
-    """Save to a JSON file."""
+def serialize_as_json(args, log, yaml_data):
+    """Render the document as JSON text."""
     log.verbose(
         f"Writing changed data as JSON to {args.yaml_file} with"
         f" indent {args.json_indent}.")
-    with open(args.yaml_file, 'w', encoding='utf-8') as out_fhnd:
-        if args.json_indent > -1:
-            json.dump(
-                Parsers.jsonify_yaml_data(yaml_data), out_fhnd,
-                indent=args.json_indent)
-        else:
-            json.dump(
-                Parsers.jsonify_yaml_data(yaml_data), out_fhnd)
+    if args.json_indent > -1:
+        return json.dumps(
+            Parsers.jsonify_yaml_data(yaml_data), indent=args.json_indent)
+    return json.dumps(Parsers.jsonify_yaml_data(yaml_data))
 
-def save_to_yaml_file(args, log, yaml_parser, yaml_data, backup_file):
-    """Save to a YAML file."""
+def serialize_as_yaml(args, log, yaml_parser, yaml_data):
+    """Render the document as YAML text."""
     log.verbose("Writing changed data as YAML to {}.".format(args.yaml_file))
-    with tempfile.TemporaryFile() as tmphnd:
-        with open(args.yaml_file, 'rb') as inhnd:
-            copyfileobj(inhnd, tmphnd)
-
-        with open(args.yaml_file, 'w', encoding='utf-8') as yaml_dump:
-            try:
-                yaml_parser.dump(yaml_data, yaml_dump)
-            # Tell pycov to ignore this block because it is impossible to
-            # trigger it for ruamel.yaml versions >0.17.4 yet this project must
-            # continue to support older versions of ruamel.yaml as long as OS
-            # package builders continue to be dependent on them.
-            except AssertionError as ex:    # pragma: no cover
-                yaml_dump.close()
-                tmphnd.seek(0)
-                with open(args.yaml_file, 'wb') as outhnd:
-                    copyfileobj(tmphnd, outhnd)
-
-                # No sense in preserving a backup file with no changes
-                if args.backup:
-                    remove(backup_file)
-
-                log.debug(
-                    "yaml_set::save_to_yaml_file:  Assertion error: {}"
-                    .format(ex))
-                log.critical((
-                    "Indeterminate assertion error encountered while"
-                    + " attempting to write updated data to {}.  The original"
-                    + " file content was restored.").format(args.yaml_file), 3)
+    buffer = StringIO()
+    try:
+        yaml_parser.dump(yaml_data, buffer)
+    # Tell pycov to ignore this block because it is impossible to
+    # trigger it for ruamel.yaml versions >0.17.4 yet this project must
+    # continue to support older versions of ruamel.yaml as long as OS
+    # package builders continue to be dependent on them.
+    except AssertionError as ex:    # pragma: no cover
+        log.debug(
+            "yaml_set::serialize_as_yaml:  Assertion error: {}"
+            .format(ex))
+        log.critical((
+            "Indeterminate assertion error encountered while"
+            + " attempting to write updated data to {}.  The original"
+            + " file content was not changed.").format(args.yaml_file), 3)
+    return buffer.getvalue()
 
 def docroot_is_flow(yaml_data):
     """Determine whether a document root is in flow (JSON) style."""
@@ -372,26 +356,8 @@ def write_document_as_yaml(output_file_name, yaml_data):
 
     return write_yaml
 
-def save_to_file(args, log, yaml_parser, yaml_data, backup_file):
-    """Save as YAML or JSON."""
-    if write_document_as_yaml(args.yaml_file, yaml_data):
-        save_to_yaml_file(args, log, yaml_parser, yaml_data, backup_file)
-    else:
-        save_to_json_file(args, log, yaml_data)
-
 def write_output_document(args, log, yaml, yaml_data):
     """Write the updated document to file or STDOUT."""
-    # Save a backup of the original file, if requested
-    backup_file = args.yaml_file + ".bak"
-    if args.backup:
-        log.verbose(
-            "Saving a backup of {} to {}."
-            .format(args.yaml_file, backup_file))
-        if exists(backup_file):
-            remove(backup_file)
-        copy2(args.yaml_file, backup_file)
-
-    # Save the changed file
     if args.yaml_file.strip() == "-":
         if write_document_as_yaml(args.yaml_file, yaml_data):
             yaml.dump(yaml_data, sys.stdout)
@@ -403,8 +369,30 @@ def write_output_document(args, log, yaml, yaml_data):
             else:
                 json.dump(
                     Parsers.jsonify_yaml_data(yaml_data), sys.stdout)
+        return
+
+    # Render the changed document before touching any file:  opening the
+    # target for writing empties it, so a document which cannot be serialized
+    # (e.g. an Anchor name or Tag the emitter rejects) must fail here, while
+    # the target is intact and no backup has been made.
+    if write_document_as_yaml(args.yaml_file, yaml_data):
+        document_text = serialize_as_yaml(args, log, yaml, yaml_data)
     else:
-        save_to_file(args, log, yaml, yaml_data, backup_file)
+        document_text = serialize_as_json(args, log, yaml_data)
+
+    # Save a backup of the original file, if requested
+    backup_file = args.yaml_file + ".bak"
+    if args.backup:
+        log.verbose(
+            "Saving a backup of {} to {}."
+            .format(args.yaml_file, backup_file))
+        if exists(backup_file):
+            remove(backup_file)
+        copy2(args.yaml_file, backup_file)
+
+    # Save the changed file
+    with open(args.yaml_file, 'w', encoding='utf-8') as out_fhnd:
+        out_fhnd.write(document_text)
 
 def _try_load_input_file(args, log, yaml, change_path, new_value):
     """Attempt to load the input data file or abend on error."""
